@@ -66,3 +66,226 @@ def parse_sample_bam_paths(bam_argument, sample_pool_argument, read_group_field,
             raise ValueError('Too many fields')
     samples, sample_bams = parse_sample_pools(samples, sample_bams, sample_pool_argument)
     return (samples, sample_bams)
+
+
+def parse_sample_value_map(argument, samples, type):
+    """Combine arguments specified for a default value and sample-value map file."""
+    if type is int and argument.isdigit():
+        value = int(argument)
+        return {s: value for s in samples}
+    if type is float and argument.replace('.', '', 1).isdigit():
+        value = float(argument)
+        return {s: value for s in samples}
+    data = dict()
+    with open(argument) as f:
+        for line in f.readlines():
+            sample, value = line.strip().split('\t')
+            data[sample] = type(value)
+    for s in samples:
+        if s not in data:
+            raise ValueError("Sample '{}' not found in file '{}'".format(s, argument))
+    return data
+
+
+def parse_pedigree_arguments(samples, sample_bams, ploidy_argument, sample_parents_argument, gamete_ploidy_argument, gamete_ibd_argument, gamete_error_argument):
+    """Parse arguments related to pedigree specification."""
+    known_samples = set(samples)
+    sample_parents = dict()
+    with open(sample_parents_argument) as f:
+        for line in f.readlines():
+            sample, p, q = line.strip().split('\t')
+            if sample not in known_samples:
+                samples.append(sample)
+                sample_bams[sample] = []
+                known_samples.add(sample)
+            p = None if p == '.' else p
+            q = None if q == '.' else q
+            sample_parents[sample] = (p, q)
+    sample_ploidy = parse_sample_value_map(ploidy_argument, samples, type=int)
+    sample_inbreeding = {s: 0.0 for s in samples}
+    gamete_ploidy = dict()
+    if gamete_ploidy_argument is None:
+        for sample in samples:
+            ploidy = sample_ploidy[sample]
+            if ploidy % 2:
+                raise ValueError('Gamete ploidy must be specified for individuals with odd ploidy')
+            tau = ploidy // 2
+            gamete_ploidy[sample] = (tau, tau)
+    elif gamete_ploidy_argument.isdigit():
+        tau = int(gamete_ploidy_argument)
+        for sample in samples:
+            gamete_ploidy[sample] = (tau, tau)
+    else:
+        with open(gamete_ploidy_argument) as f:
+            for line in f.readlines():
+                sample, tau_p, tau_q = line.strip().split('\t')
+                gamete_ploidy[sample] = (int(tau_p), int(tau_q))
+    gamete_ibd = dict()
+    if gamete_ibd_argument.replace('.', '', 1).isdigit():
+        lambda_ = float(gamete_ibd_argument)
+        for sample in samples:
+            gamete_ibd[sample] = (lambda_, lambda_)
+    else:
+        with open(gamete_ibd_argument) as f:
+            for line in f.readlines():
+                sample, lambda_p, lambda_q = line.strip().split('\t')
+                gamete_ibd[sample] = (float(lambda_p), float(lambda_q))
+    gamete_error = dict()
+    if gamete_error_argument.replace('.', '', 1).isdigit():
+        err = float(gamete_error_argument)
+        for sample in samples:
+            gamete_error[sample] = (err, err)
+    else:
+        with open(gamete_error_argument) as f:
+            for line in f.readlines():
+                sample, err_p, err_q = line.strip().split('\t')
+                gamete_error[sample] = (float(err_p), float(err_q))
+    return dict(samples=samples, sample_bams=sample_bams, sample_ploidy=sample_ploidy, sample_inbreeding=sample_inbreeding, sample_parents=sample_parents, gamete_ploidy=gamete_ploidy, gamete_ibd=gamete_ibd, gamete_error=gamete_error)
+
+
+def parse_sample_temperatures(mcmc_temperatures_argument, samples):
+    """Parse inverse temperatures for MCMC simulation with parallel-tempering. Parameters ---------- mcmc_temperatures_argument : str     Value(s) for mcmc_temperatures. samples : list     List of samples. Returns ------- sample_temperatures : dict     Dict mapping each sample to a list of temperatures (floats)."""
+    if len(mcmc_temperatures_argument) > 1:
+        floats = True
+    elif mcmc_temperatures_argument[0].replace('.', '', 1).isdigit():
+        floats = True
+    else:
+        floats = False
+    if floats:
+        temps = [float(s) for s in mcmc_temperatures_argument]
+        temps.sort()
+        assert temps[0] > 0.0
+        assert temps[-1] <= 1.0
+        if temps[-1] != 1.0:
+            temps.append(1.0)
+        return {s: temps for s in samples}
+    data = {s: [1.0] for s in samples}
+    with open(mcmc_temperatures_argument[0]) as f:
+        for line in f.readlines():
+            values = line.strip().split('\t')
+            sample = values[0]
+            temps = [float(v) for v in values[1:]]
+            temps.sort()
+            assert temps[0] > 0.0
+            assert temps[-1] <= 1.0
+            if temps[-1] != 1.0:
+                temps.append(1.0)
+            data[sample] = temps
+    assert len(samples) == len(data)
+    return data
+
+
+def parse_report_fields(report_argument):
+    if report_argument is None:
+        report_argument = set()
+    else:
+        report_argument = set(report_argument)
+    info_fields = INFO.DEFAULT_FIELDS.copy()
+    for f in INFO.OPTIONAL_FIELDS:
+        id = f.id
+        if id in report_argument or f'INFO/{id}' in report_argument:
+            info_fields.append(f)
+    format_fields = FORMAT.DEFAULT_FIELDS.copy()
+    for f in FORMAT.OPTIONAL_FIELDS:
+        id = f.id
+        if id in report_argument or f'FORMAT/{id}' in report_argument:
+            format_fields.append(f)
+    return (info_fields, format_fields)
+
+
+def collect_default_program_arguments(arguments, skip_inbreeding=False):
+    if arguments.ignore_base_phred_scores:
+        if arguments.base_error_rate[0] == 0.0:
+            raise ValueError('Cannot ignore base phred scores if --base-error-rate is 0')
+    samples, sample_bams = parse_sample_bam_paths(arguments.bam, arguments.sample_pool[0], arguments.read_group_field[0], reference_path=arguments.reference[0])
+    sample_ploidy = parse_sample_value_map(arguments.ploidy[0], samples, type=int)
+    if skip_inbreeding:
+        sample_inbreeding = None
+    else:
+        sample_inbreeding = parse_sample_value_map(arguments.inbreeding[0], samples, type=float)
+    info_fields, format_fields = parse_report_fields(arguments.report)
+    return dict(samples=samples, sample_bams=sample_bams, sample_ploidy=sample_ploidy, sample_inbreeding=sample_inbreeding, ref=arguments.reference[0], read_group_field=arguments.read_group_field[0], base_error_rate=arguments.base_error_rate[0], ignore_base_phred_scores=arguments.ignore_base_phred_scores, mapping_quality=arguments.mapping_quality[0], skip_duplicates=arguments.skip_duplicates, skip_qcfail=arguments.skip_qcfail, skip_supplementary=arguments.skip_supplementary, info_fields=info_fields, format_fields=format_fields, n_cores=arguments.cores[0])
+
+
+def collect_call_exact_program_arguments(arguments):
+    data = collect_default_program_arguments(arguments)
+    data['vcf'] = arguments.haplotypes[0]
+    data['random_seed'] = None
+    data['prior_frequencies_tag'] = arguments.prior_frequencies[0]
+    data['filter_input_haplotypes'] = arguments.filter_input_haplotypes[0]
+    return data
+
+
+def collect_default_mcmc_program_arguments(arguments):
+    return dict(mcmc_chains=arguments.mcmc_chains[0], mcmc_steps=arguments.mcmc_steps[0], mcmc_burn=arguments.mcmc_burn[0], mcmc_incongruence_threshold=arguments.mcmc_chain_incongruence_threshold[0], random_seed=arguments.mcmc_seed[0])
+
+
+def collect_call_mcmc_program_arguments(arguments):
+    data = collect_default_program_arguments(arguments)
+    data.update(collect_default_mcmc_program_arguments(arguments))
+    data['vcf'] = arguments.haplotypes[0]
+    data['prior_frequencies_tag'] = arguments.prior_frequencies[0]
+    data['filter_input_haplotypes'] = arguments.filter_input_haplotypes[0]
+    return data
+
+
+def collect_call_pedigree_mcmc_program_arguments(arguments):
+    data = collect_default_program_arguments(arguments, skip_inbreeding=True)
+    data['format_fields'] += FORMAT.PEDIGREE_FIELDS
+    data.update(collect_default_mcmc_program_arguments(arguments))
+    data['vcf'] = arguments.haplotypes[0]
+    data['prior_frequencies_tag'] = arguments.prior_frequencies[0]
+    data['filter_input_haplotypes'] = arguments.filter_input_haplotypes[0]
+    assert data['sample_inbreeding'] is None
+    data.update(parse_pedigree_arguments(samples=data['samples'], sample_bams=data['sample_bams'], ploidy_argument=arguments.ploidy[0], sample_parents_argument=arguments.sample_parents[0], gamete_ploidy_argument=arguments.gamete_ploidy[0], gamete_ibd_argument=arguments.gamete_ibd[0], gamete_error_argument=arguments.gamete_error[0]))
+    return data
+
+
+def collect_assemble_mcmc_program_arguments(arguments):
+    if arguments.targets[0] is not None and arguments.region[0] is not None:
+        raise ValueError('Cannot combine --targets and --region arguments.')
+    data = collect_default_program_arguments(arguments)
+    data.update(collect_default_mcmc_program_arguments(arguments))
+    sample_mcmc_temperatures = parse_sample_temperatures(arguments.mcmc_temperatures, samples=data['samples'])
+    data.update(dict(bed=arguments.targets[0], vcf=arguments.variants[0], sample_mcmc_temperatures=sample_mcmc_temperatures, region=arguments.region[0], region_id=arguments.region_id, mcmc_fix_homozygous=arguments.mcmc_fix_homozygous[0], mcmc_recombination_step_probability=arguments.mcmc_recombination_step_probability[0], mcmc_partial_dosage_step_probability=arguments.mcmc_partial_dosage_step_probability[0], mcmc_dosage_step_probability=arguments.mcmc_dosage_step_probability[0], mcmc_llk_cache_threshold=arguments.mcmc_llk_cache_threshold[0], haplotype_posterior_threshold=arguments.haplotype_posterior_threshold[0]))
+    return data
+
+
+class Parameter:
+    def add_to(self, parser):
+
+        """Add parameter to a parser object."""
+
+        kwargs = copy.deepcopy(self.kwargs)
+
+        parser.add_argument(self.cli, **kwargs)
+
+        return parser
+
+
+class BooleanFlag:
+    def add_to(self, parser):
+
+        """Add boolean flag to a parser object."""
+
+        dest = self.kwargs['dest']
+
+        action = self.kwargs['action']
+
+        if action == 'store_true':
+
+            default = False
+
+        elif action == 'store_false':
+
+            default = True
+
+        else:
+
+            raise ValueError('Action must be "store_true" or "store_false".')
+
+        parser.set_defaults(**{dest: default})
+
+        parser.add_argument(self.cli, **self.kwargs)
+
+        return parser
